@@ -10,15 +10,19 @@ let hash_impl alg chunks = match alg with
   | "sha256" -> Some (sha256_finish (fold sha256_update chunks sha256_init), sha256 (List.concat chunks))
   | "sha384" -> Some (sha384_finish (fold sha512_update chunks sha384_init), sha384 (List.concat chunks))
   | "sha512" -> Some (sha512_finish (fold sha512_update chunks sha512_init), sha512 (List.concat chunks))
+  | "sha512-224" -> Some (sha512_224_finish (fold sha512_update chunks sha512_224_init), sha512_224 (List.concat chunks))
+  | "sha512-256" -> Some (sha512_256_finish (fold sha512_update chunks sha512_256_init), sha512_256 (List.concat chunks))
   | _ -> None
 
 let hfun alg = match alg with
   | "sm3" -> Some (sm3, 64, hmacB_sm3) | "sha1" -> Some (sha1, 64, hmacB_sha1)
   | "sha224" -> Some (sha224, 64, hmacB_sha224) | "sha256" -> Some (sha256, 64, hmacB_sha256)
   | "sha384" -> Some (sha384, 128, hmacB_sha384) | "sha512" -> Some (sha512, 128, hmacB_sha512)
+  | "sha512-224" -> Some (sha512_224, 128, hmacB_sha512_224) | "sha512-256" -> Some (sha512_256, 128, hmacB_sha512_256)
   | _ -> None
 
 let handle ws = match ws with
+  | ["hash"; ("sha512-224" | "sha512-256"); _] -> "ERR unknown-alg"   (* no direct interface, dispatch only *)
   | ["hash"; alg; c] | ["digest"; alg; c] ->
     (match hash_impl alg (chunks_of c) with Some (i, s) -> both i s | None -> "ERR")
   | ["digest1"; alg; m] ->
